@@ -49,6 +49,8 @@ def native_model(lcf, c):
         k = 'Dup_%s_O' % t0
         f1, f2 = ('dg1', 'do1') if t0 == 'G1' else ('dg2', 'do2')
         mb.add_link(m, lcf, k, f1, [a0], f2, [a1])
+    if c.get('l5'):
+        mb.add_link(m, lcf, 'Chain', 'prv', [a1], 'nxt', [a2])       # both ends of the same type
     eps = ATT[c['att']]
     if eps:
         t = AttackerAttachment(name='Attacker:%d' % c['aid'])
@@ -146,7 +148,8 @@ def emit_eom(m, orient):
 
 def _choices(kw):
     return {'t0': idx(kw['t0'], 3), 'i0': idx(kw['i0'], 2), 'dp': idx(kw['dp'], 3), 'aid': ([40, 0][idx(kw['aid'], 2)] if 'aid' in kw else 40), 'att': idx(kw['att'], 3),
-            'att2': (idx(kw['a2'], 3) if 'a2' in kw else 0), 'l0': bool(kw['l0']), 'l1': bool(kw['l1']), 'l2': bool(kw['l2']), 'l3': bool(kw['l3']), 'l4': bool(kw['l4']), 'pack': bool(kw['pack'])}
+            'att2': (idx(kw['a2'], 3) if 'a2' in kw else 0), 'l0': bool(kw['l0']), 'l1': bool(kw['l1']), 'l2': bool(kw['l2']), 'l3': bool(kw['l3']), 'l4': bool(kw['l4']), 'pack': bool(kw['pack']),
+            'l5': (bool(kw['l5']) if 'l5' in kw else False)}
 
 
 def _native_loaded(m, lcf, d):
@@ -254,15 +257,15 @@ def body_twin(cube, **kw):
 
 
 def queries(tier):
-    base = [I('t0', 0, 2), I('i0', 0, 1), I('dp', 0, 2), I('aid', 0, 1), I('att', 0, 2), I('a2', 0, 2), B('l0'), B('l1'), B('l2'), B('l3'), B('l4'), B('pack')]
-    w = {'t0': 0, 'i0': 1, 'dp': 1, 'aid': 0, 'att': 2, 'a2': 2, 'l0': True, 'l1': True, 'l2': True, 'l3': False, 'l4': True, 'pack': True}
-    pre = (['l0 + l1 + l2 + l3 + l4 <= 2', 'not pack or (l0 and l1)'] if tier == 'quick' else ['not pack or (l0 and l1)']) + \
-          ['aid == 0 or (att > 0 and i0 == 0)', 'a2 == 0 or (att > 0 and l0 + l1 + l2 + l3 + l4 <= 1)']
+    base = [I('t0', 0, 2), I('i0', 0, 1), I('dp', 0, 2), I('aid', 0, 1), I('att', 0, 2), I('a2', 0, 2), B('l0'), B('l1'), B('l2'), B('l3'), B('l4'), B('l5'), B('pack')]
+    w = {'t0': 0, 'i0': 1, 'dp': 1, 'aid': 0, 'att': 2, 'a2': 2, 'l0': True, 'l1': True, 'l2': True, 'l3': False, 'l4': True, 'l5': True, 'pack': True}
+    pre = (['l0 + l1 + l2 + l3 + l4 + l5 <= 2', 'not pack or (l0 and l1)'] if tier == 'quick' else ['l0 + l1 + l2 + l3 + l4 + l5 <= 3', 'not pack or (l0 and l1)']) + \
+          ['aid == 0 or (att > 0 and i0 == 0)', 'a2 == 0 or (att > 0 and l0 + l1 + l2 + l3 + l4 + l5 <= 1)']
     qs = [Query(name='old', body=body_old, params=base + [I('var', 0, 1), I('fmt', 0, 2)], pre=pre + (['fmt == var'] if tier == 'quick' else []),
-                split=['t0', 'att', 'dp'], timeout=600 if tier == 'quick' else 1700,
+                split=['t0', 'att', 'dp'] + ([] if tier == 'quick' else ['var']), timeout=600 if tier == 'quick' else 1700,
                 witnesses=[({}, dict(w, var=0, fmt=0)), ({}, dict(w, var=1, fmt=1, t0=1))],
                 bound='3-asset L_INH models (first asset G1/G2/Am with id -5 or 0, ids 3 and 12; defenses; links L (separate or two members in one field), L1, L2, '
-                      'Dup_G1_O / Dup_G2_O; attacker with id 40 or 0 and 0, 1 or 4 entry points incl. two on one asset; defense dP (enabled by default) left, set to 0.5 or switched to 0) emitted in the 0.0.39 layout (both association '
+                      'Dup_G1_O / Dup_G2_O, Chain between the two O assets (both ends of one type); attacker with id 40 or 0 and 0, 1 or 4 entry points incl. two on one asset; defense dP (enabled by default) left, set to 0.5 or switched to 0) emitted in the 0.0.39 layout (both association '
                       'variants; json / yml / yaml) and loaded by load_model_from_older_version'),
           Query(name='scad', body=body_scad, params=base + [I('ori', 0, 1)], pre=pre, split=['t0', 'att', 'dp'], timeout=600 if tier == 'quick' else 1700,
                 witnesses=[({}, dict(w, **{'ori': 0})), ({}, dict(w, **{'ori': 1, 't0': 1, 'i0': 0}))],
